@@ -666,6 +666,17 @@ class ImplRun:
                 self.fail("copy-shares-atom:%s" % name, "result of %s shares atom(s) %r with its operands" % (name, shared[:6]))
             if any(res.lattice is L for L in pre["lats"].values()):
                 self.fail("copy-shares-lattice:%s" % name, "result of %s shares the lattice object with a live structure" % name)
+        if res is not None and (k in ("copy", "add", "sub", "mul", "pickle", "deepcopy") or (k == "ctor" and op[1] is not None and op[1][0] == "S")):
+            # ... nor any mutable piece of their other attributes (metadata dictionaries and the lists / arrays inside them)
+            mine = mutable_parts(res)
+            for h_, s_ in self.live():
+                if s_ is res:
+                    continue
+                common_ = sorted(set(mine) & set(mutable_parts(s_)))
+                if common_:
+                    self.fail("copy-shares-attr:%s" % name, "result of %s shares the mutable attribute object(s) %s with structure %d (editing one changes the other)" % (
+                        name, [mine[i] for i in common_][:4], h_))
+                    break
         if k == "ctor" and res is not None:
             if op[1] is not None and op[1][0] == "S":
                 shared = [a.payload for a in list.__iter__(res) if id(a) in pre["ids"]]
@@ -1002,6 +1013,28 @@ class Gen:
                 break
             emit(self.op(run))
         return ops, run, obs
+
+
+def mutable_parts(stru):
+    """{id: path} of the mutable objects reachable from the instance attributes of a structure other than its atoms and
+    its lattice (dictionaries, lists, sets, arrays; two levels deep)"""
+    import numpy as _np
+
+    out = {}
+
+    def walk(v, path, depth):
+        if isinstance(v, (dict, list, set, bytearray, _np.ndarray)):
+            out[id(v)] = path
+            if depth < 3:
+                items = v.items() if isinstance(v, dict) else enumerate(v) if isinstance(v, list) else ()
+                for k_, x in items:
+                    walk(x, "%s[%r]" % (path, k_), depth + 1)
+
+    for name_, v in vars(stru).items():
+        if name_ in ("_lattice",):
+            continue
+        walk(v, name_, 0)
+    return out
 
 
 # the counter-example histories of DS.Props.C08 (witnessSelection, witnessExtendDefault, witnessNoCopy,
